@@ -241,6 +241,8 @@ def check_replace_sub(host, roots, leaves, sub, identity_labels, col, kind):
         feats.add('sub-output-shared-or-input')
     if host.blocks:
         feats.add('host-blocks')
+    if kind == 'cone-copy-label-clash':
+        feats.add('replacement-label-clashes-with-outside-gate')
     downstream = K.reach(host, list(roots), True)
     if any(l in downstream for l in leaves):
         # A listed "leaf" that itself depends on a root is not a cut of the cone (C19 quantifies over
@@ -294,6 +296,16 @@ def sub_cases(host, pool, rng, max_leaves, per_key):
                     ren = {g: f'c_{g}' for g in cn.gates}
                     yield roots, leaves, K.relabel(cn, lambda s: ren[s]), False, 'cone-copy'
                     yield roots, leaves, cn, True, 'cone-copy'
+                    # (a') the same copy, but one INTERNAL gate of the replacement carries the label of a host gate that
+                    # stays outside the replaced block: must be refused with a documented error or handled correctly,
+                    # never silently overwrite the host gate
+                    inner = [g for g in cn.gates if cn.gates[g][0] != 'INPUT' and g not in cn.outputs]
+                    outside = [g for g in allg if g not in cg and g not in leaves and g not in roots]
+                    if inner and outside:
+                        ren2 = dict(ren)
+                        ren2[inner[0]] = outside[rng.randrange(len(outside))]
+                        if len(set(ren2.values())) == len(ren2):
+                            yield roots, leaves, K.relabel(cn, lambda s: ren2[s]), False, 'cone-copy-label-clash'
                     # (b) every pool circuit with the same function (bounded per key)
                     key = (len(leaves), len(roots), tuple(map(tuple, N.tt(cn))))
                     cands = pool.get(key, [])
